@@ -4,6 +4,7 @@ import Pi2.MM.AstEmbed
 import Pi2.MM.ConvSpec
 import Pi2.Gen.MMConv
 import Pi2.MM.ConvCompose
+import Pi2.MM.ConvShape
 /-!
 # `pi2gen` — a second driver, for requests that evaluate GENERATED code (`Pi2/Gen/*`, regenerated from /repo on every run)
 
@@ -118,8 +119,8 @@ def handle (line : String) : String :=
       match mdbOfSexp db, strOfHexAtom target with
       | some mdb, some t =>
         (match MM.ConvSpec.dbOfMDb mdb t with
-         | none => "(outside)"
-         | some sp => s!"(spec {mmDbToStr sp.db} {mmTermToStr sp.goal} ({" ".intercalate (sp.labels.map mmLblToStr)}) {natsToStr sp.steps} (consts {strsToStr sp.names.consts}) (vars {strsToStr sp.names.vars}) (table {" ".intercalate (sp.table.map fun (l, x) => s!"({hexAtomOfStr l} {mmLblToStr x})")}) (frag {ConvTie.InFragmentX mdb t} {ConvTie.InFragment mdb t} {ConvTie.InFragmentM mdb (ConvTie.dbFuel mdb) t} {ConvTie.dbFuel mdb}) (wf {sp.db.wf}))")
+         | none => s!"(outside (shape {MM.ConvSpec.FragmentShape mdb t}))"
+         | some sp => s!"(spec {mmDbToStr sp.db} {mmTermToStr sp.goal} ({" ".intercalate (sp.labels.map mmLblToStr)}) {natsToStr sp.steps} (consts {strsToStr sp.names.consts}) (vars {strsToStr sp.names.vars}) (table {" ".intercalate (sp.table.map fun (l, x) => s!"({hexAtomOfStr l} {mmLblToStr x})")}) (shape {MM.ConvSpec.FragmentShape mdb t}) (frag {ConvTie.InFragmentX mdb t} {ConvTie.InFragment mdb t} {ConvTie.InFragmentM mdb (ConvTie.dbFuel mdb) t} {ConvTie.dbFuel mdb}) (wf {sp.db.wf}))")
       | _, _ => "bad-request"
     | "mmconv", [db, target] =>
       match mdbOfSexp db, strOfHexAtom target with
